@@ -158,6 +158,8 @@ STICKY_VARIANTS = [
     # one of the two browsing clients asks for a page that does not exist: steps in which both browse give the web
     # server mixed answers (200 and 404: a qualifying event whose value is 0), steps with one of them give +1 / -1
     ("all-sticky+mixed-answers", {**{t: True for t in STICKY_TYPES}, "_mixed": True}),
+    # boundary weights: components switched off with weight 0 / 0.0, a negative and a large weight
+    ("none-sticky+boundary-weights", {**{t: False for t in STICKY_TYPES}, "_weights": True}),
 ]
 
 
@@ -175,6 +177,12 @@ def sticky_variant(base: Dict[str, Any], flags: Dict[str, bool]) -> Dict[str, An
         for c in rf["reward_components"]:
             if c["type"] in STICKY_TYPES:
                 c.setdefault("options", {})["sticky"] = flags[c["type"]]
+    if flags.get("_weights"):
+        for a in cfg["agents"]:
+            comps = a.get("reward_function", {}).get("reward_components", [])
+            for k, c in enumerate(comps):
+                if c.get("type") != "shared-reward":
+                    c["weight"] = [0, 0.0, -0.5, 3][k % 4] if a["type"] == "proxy-agent" else [0.0, 1.0][k % 2]
     if flags.get("_mixed"):
         for n in cfg["simulation"]["network"]["nodes"]:
             if n.get("hostname") == "client_2":
